@@ -336,6 +336,7 @@ fn install_clock(ctx: &Rc<Ctx>, fuel: u64, preempts: &[u64], site_preempts: &[(u
 fn run_thread<D: SimDeco>(
     tid: usize,
     tspec: &ThreadSpec,
+    site_preempts: &[(u32, u64)],
     scen: &Scenario,
     docs: &[Vec<u8>],
     specs: &[ConfigSpec],
@@ -374,7 +375,7 @@ where
         &ctx,
         scen.fuel,
         &tspec.preempt_ticks,
-        &tspec.preempt_sites,
+        site_preempts,
         scen.threads.len() > 1,
     );
 
@@ -820,6 +821,42 @@ where
         });
     }
 
+    // Site-targeted preemption "where this document goes": one calibration
+    // rendering (reference route, this thread, before anything is scheduled)
+    // tells which tick and probe sites are reached and how often; the abstract
+    // (rank, permille) entries of each thread become (site, n-th occurrence).
+    let mut resolved_sites: Vec<Vec<(u32, u64)>> = scen.threads.iter().map(|t| t.preempt_sites.clone()).collect();
+    if scen.threads.iter().any(|t| !t.preempt_hit.is_empty()) && !docs.is_empty() {
+        let w0 = scen
+            .threads
+            .iter()
+            .flat_map(|t| t.ops.iter())
+            .find_map(|o| match o {
+                Op::OneShotString { w, .. }
+                | Op::OneShotLines { w, .. }
+                | Op::OneShotColoured { w, .. }
+                | Op::RenderString { w, .. }
+                | Op::RenderLines { w, .. }
+                | Op::RenderColoured { w, .. } => Some(*w),
+                _ => None,
+            })
+            .unwrap_or(40);
+        let _ = reference(&specs[0], &docs[0], docs[0].len(), w0, scen.fuel);
+        let counts = verif_hooks::counts();
+        let hit: Vec<usize> = (0..NUM_SITES).filter(|&i| counts[i] > 0).collect();
+        if !hit.is_empty() {
+            for (t, out) in scen.threads.iter().zip(resolved_sites.iter_mut()) {
+                for &(rank, permille) in &t.preempt_hit {
+                    let site = hit[rank as usize % hit.len()];
+                    let nth = 1 + (counts[site] - 1) * (permille.min(999) as u64) / 1000;
+                    out.push((site as u32, nth));
+                }
+            }
+        }
+        verif_hooks::reset();
+    }
+    let resolved_ref = &resolved_sites[..];
+
     let shared = Shared::new(n, &scen.sched, opts.trace);
     let mail = Mailboxes {
         boxes: Mutex::new((0..n).map(|_| VecDeque::new()).collect()),
@@ -836,7 +873,7 @@ where
                 .stack_size(tspec.stack_kib as usize * 1024)
                 .spawn_scoped(s, move || {
                     let sc = SharedCfgs(cfgs_shared);
-                    run_thread::<D>(tid, tspec, scen, docs_ref, specs_ref, sc, shared, mail, opts)
+                    run_thread::<D>(tid, tspec, &resolved_ref[tid], scen, docs_ref, specs_ref, sc, shared, mail, opts)
                 })
                 .expect("spawn simulated thread");
             handles.push(h);
